@@ -10,6 +10,7 @@ package db
 // re-fetches that document as the user; a body => keep it, an error / removal => purge it.
 
 import (
+	"context"
 	"encoding/json"
 	"fmt"
 	"os"
@@ -36,6 +37,7 @@ type c13Op struct {
 	Name  string   `json:"name,omitempty"`
 	GU    []string `json:"gu,omitempty"`
 	RU    []string `json:"ru,omitempty"`
+	Own   []string `json:"own,omitempty"` // grantdoc: channels the granting document itself is in (besides G)
 }
 
 type c13Plan struct {
@@ -90,7 +92,7 @@ func c13Generate(seed uint64, tier string, index int) json.RawMessage {
 				case x < 17:
 					op = c13Op{Kind: "delrole", Name: []string{"r1", "r2"}[r.Intn(2)]}
 				default:
-					op = c13Op{Kind: "grantdoc", Doc: 4 + r.Intn(2), GU: subset(r, grantees, 400), Chans: subset(r, c13Chans, 450), RU: subset(r, []string{"alice"}, 400), Roles: subset(r, []string{"role:r1", "role:r2"}, 500)}
+					op = c13Op{Kind: "grantdoc", Doc: 4 + r.Intn(2), Own: subset(r, c13Chans, 300), GU: subset(r, grantees, 400), Chans: subset(r, c13Chans, 450), RU: subset(r, []string{"alice"}, 400), Roles: subset(r, []string{"role:r1", "role:r2"}, 500)}
 				}
 				prog = append(prog, op)
 			}
@@ -190,7 +192,8 @@ func c13Run(env *verifsim.Env, raw json.RawMessage) *verifsim.Violation {
 			id := docID(op.Doc)
 			body := Body{"tok": tok, "channels": toIfaces(op.Chans)}
 			if op.Kind == "grantdoc" {
-				body["channels"] = []any{"G"}
+				// the granting document itself may sit in channels the user already has
+				body["channels"] = append([]any{"G"}, toIfaces(op.Own)...)
 				if len(op.GU) > 0 && len(op.Chans) > 0 {
 					body["gu"], body["gc"] = toIfaces(op.GU), toIfaces(op.Chans)
 				}
@@ -235,6 +238,27 @@ func c13Run(env *verifsim.Env, raw json.RawMessage) *verifsim.Violation {
 	var since SequenceID
 	taskSeq := 0
 	for rd, tasks := range p.Rounds {
+		// roles that do not exist when the round starts (they may be created in it, after grants that name them)
+		absentAtStart := map[string]bool{}
+		if cerr := s.Call(fmt.Sprintf("roles%d", rd), func() {
+			a := n.dbc.Authenticator(n.ctx)
+			for _, rn := range []string{"r1", "r2"} {
+				if role, err := a.GetRole(rn); err != nil || role == nil {
+					absentAtStart[rn] = true
+				}
+			}
+		}); cerr != nil {
+			return infraOrBudget(cerr)
+		}
+		deletedInRound := map[string]bool{}
+		for _, prog := range tasks {
+			for _, op := range prog {
+				if op.Kind == "delrole" {
+					absentAtStart[op.Name] = true // deleted (and possibly re-created) within the round
+					deletedInRound[op.Name] = true
+				}
+			}
+		}
 		for _, prog := range tasks {
 			prog := prog
 			taskSeq++
@@ -285,6 +309,7 @@ func c13Run(env *verifsim.Env, raw json.RawMessage) *verifsim.Violation {
 				return rev, true
 			}
 			var revokedRows []string
+			var revokedSeqs []uint64 // document sequences named by revocation rows of this pull
 			pullStart := since
 			for page := 0; page < 100; page++ {
 				rows, err := n.oneShotChanges(user, base.SetOf("*"), ChangesOptions{Since: since, Revocations: true, Limit: p.Limits[rd]})
@@ -293,6 +318,10 @@ func c13Run(env *verifsim.Env, raw json.RawMessage) *verifsim.Violation {
 					return
 				}
 				if os.Getenv("VERIF_DEBUG") != "" {
+					for _, rn := range []string{"r1", "r2"} {
+						raw, _, _ := w.rawStore().GetRaw(context.Background(), "_sync:role:"+rn)
+						fmt.Fprintf(os.Stderr, "DEBUG role %s = %s\n", rn, raw)
+					}
 					fmt.Fprintf(os.Stderr, "DEBUG pull %d page %d since %s rows %v history %+v\n", rd, page, since.String(), rowsBrief(rows), user.CollectionChannelHistory(base.DefaultScope, base.DefaultCollection))
 				}
 				if len(rows) == 0 {
@@ -310,6 +339,7 @@ func c13Run(env *verifsim.Env, raw json.RawMessage) *verifsim.Violation {
 					}
 					if r.Revoked {
 						revokedRows = append(revokedRows, r.ID)
+						revokedSeqs = append(revokedSeqs, r.seqID.Seq)
 					}
 				}
 				if p.Limits[rd] == 0 {
@@ -324,6 +354,44 @@ func c13Run(env *verifsim.Env, raw json.RawMessage) *verifsim.Violation {
 			if err != nil {
 				vio = verifsim.Vf("C13", "load-failed", "channels of alice: %v", err)
 				return
+			}
+			// recorded finding: a role that was created after the grant that gives it to the user (or after the
+			// grants that give it channels) brings its channels into the user's view at the sequences of those
+			// older grants, not at the sequence of its creation; a client that already pulled past them is not
+			// back-filled
+			createdRoleKey := func(v *verifsim.Violation, id string) {
+				doc, err := acoll.GetDocument(actx, id, DocUnmarshalAll)
+				if err != nil || doc == nil {
+					return
+				}
+				roles, _ := user.GetRoles()
+				for _, role := range roles {
+					if !absentAtStart[role.Name()] {
+						continue
+					}
+					for ch := range role.CollectionChannels(base.DefaultScope, base.DefaultCollection) {
+						if rem, ok := doc.Channels[ch]; ok && rem == nil {
+							v.Key = "role-created-after-grants-that-name-it"
+						}
+					}
+				}
+			}
+			// recorded finding: a revocation row for a document whose sequence is later than the revocation is
+			// merged into the feed as if it happened at the revocation sequence but is labelled with the document's
+			// sequence; with a paging limit the next page resumes after that label and skips what lies between
+			pagedRevocationOrderKey := func(v *verifsim.Violation, id string) {
+				if p.Limits[rd] == 0 || v.Key != "" {
+					return
+				}
+				doc, err := acoll.GetDocument(actx, id, DocUnmarshalSync)
+				if err != nil || doc == nil {
+					return
+				}
+				for _, rs := range revokedSeqs {
+					if doc.Sequence > pullStart.Seq && doc.Sequence < rs {
+						v.Key = "revocation-row-merged-early-but-labelled-late"
+					}
+				}
 			}
 			want := map[string]string{}
 			for i := 0; i < 6; i++ {
@@ -351,10 +419,14 @@ func c13Run(env *verifsim.Env, raw json.RawMessage) *verifsim.Violation {
 				got, ok := held[id]
 				if !ok {
 					vio = verifsim.Vf("C13", "not-backfilled", "after pull %d the user can see %s (rev %s, user channels %v) but no row of the pulls so far named it: it was never sent (held %v)", rd, id, rev, sortedTimedKeys(eff), sortedHeld(held))
+					createdRoleKey(vio, id)
+					pagedRevocationOrderKey(vio, id)
 					return
 				}
 				if got != rev {
 					vio = verifsim.Vf("C13", "stale-copy", "after pull %d the client holds %s at %s, the current visible revision is %s", rd, id, got, rev)
+					createdRoleKey(vio, id)
+					pagedRevocationOrderKey(vio, id)
 					return
 				}
 			}
@@ -372,6 +444,28 @@ func c13Run(env *verifsim.Env, raw json.RawMessage) *verifsim.Violation {
 							}
 							if g, ok := eff[ch]; ok && g.Sequence > pullStart.Seq {
 								vio.Key = "removal-suppressed-by-regrant-backfill"
+							}
+						}
+						// recorded finding: a revocation delivered in pages resumes from "revocation:document" positions
+						// and no longer knows where the pull started; a document the client received as the very last
+						// row before (its sequence equals the position the pull started from) is then judged as never sent
+						if vio.Key == "" && p.Limits[rd] > 0 && len(revokedSeqs) > 0 && doc.Sequence == pullStart.Seq {
+							vio.Key = "paged-revocation-forgets-pull-start"
+						}
+					}
+					// recorded finding: a role is deleted and a document revision written in the same round assigns that
+					// role to the user; what the user saw only through the role's channels is not revoked
+					if vio.Key == "" {
+						for _, prog := range tasks {
+							for _, op := range prog {
+								if op.Kind != "grantdoc" || len(op.RU) == 0 {
+									continue
+								}
+								for _, rr := range op.Roles {
+									if deletedInRound[strings.TrimPrefix(rr, "role:")] {
+										vio.Key = "deleted-role-assigned-again-by-document"
+									}
+								}
 							}
 						}
 					}
